@@ -107,6 +107,11 @@ def _run_calls(case, res):
     return res
 
 
+def interp_cases(tier):
+    """interpreted pass (NUMBA_DISABLE_JIT=1)"""
+    return [{"kind": "agg", "mesh": "mixedpatch", "orders": [0, 2], "full": 5}, {"kind": "agg", "mesh": "sizes38", "orders": [0, 1], "full": 5}]
+
+
 def selftest_case(tier):
     return {"kind": "agg", "mesh": "mixedpatch", "orders": [0, 2], "full": 5}
 
